@@ -38,6 +38,7 @@ type c11Node struct {
 	kids []*c11Node
 	body []c11Tok // method body tokens (filled in the second phase)
 	blk  bool     // token opens a block closed by "close"
+	fill func()   // second phase: operands that invoke methods / name objects of the whole table
 }
 
 type c11Gen struct {
@@ -53,6 +54,8 @@ type c11Gen struct {
 	table     int
 	budget    int
 	maxDepth  int
+	scopeLvl  bool // expressions outside a method body: no ArgN / LocalN
+	fills     []func()
 }
 
 func c11Key(p []string) string { return strings.Join(p, ".") }
@@ -285,6 +288,25 @@ func (g *c11Gen) level(cur []string, depth int, late, off bool, n int) []*c11Nod
 			g.methods = append(g.methods, &c11Method{path: p, argc: argc, table: g.table, node: nd})
 			out = append(out, nd)
 		case k < 62: // Name
+			if g.rng.Intn(4) == 0 {
+				// value = invocation / name / Buffer whose size is an invocation: written with a plain name (D13),
+				// filled in when all methods of the table are known (forward references)
+				seg := g.fresh()
+				p := c11Cat(cur, seg)
+				g.declared(cur, p, off)
+				g.names = append(g.names, c11Scope{path: p, table: g.table})
+				nd := &c11Node{tok: c11Tok{K: "decl", Kind: "Name", F: &c11Form{Segs: []string{seg}}, Args: []c11Term{g.constTerm()}}}
+				m := &c11Method{path: p, table: g.table}
+				g.fills = append(g.fills, func() {
+					v := g.scopeExpr(m)
+					if g.rng.Intn(4) == 0 {
+						v = c11Term{T: "buffer", A: []c11Term{v}, N: []int{1, 2, 3}}
+					}
+					nd.tok.Args = []c11Term{v}
+				})
+				out = append(out, nd)
+				continue
+			}
 			f, p := g.declForm(cur, late)
 			g.declared(cur, p, off)
 			g.names = append(g.names, c11Scope{path: p, table: g.table})
@@ -297,7 +319,18 @@ func (g *c11Gen) level(cur []string, depth int, late, off bool, n int) []*c11Nod
 			if g.rng.Intn(2) == 0 {
 				off = c11Term{T: "word", N: []int{g.rng.Intn(65536)}}
 			}
-			out = append(out, &c11Node{tok: c11Tok{K: "decl", Kind: "OpRegion", F: f, Args: []c11Term{{T: "byte", N: []int{g.rng.Intn(10)}}, off, {T: "byte", N: []int{g.rng.Intn(256)}}}}})
+			rn := &c11Node{tok: c11Tok{K: "decl", Kind: "OpRegion", F: f, Args: []c11Term{{T: "byte", N: []int{g.rng.Intn(10)}}, off, {T: "byte", N: []int{g.rng.Intn(256)}}}}}
+			if len(f.Segs) == 1 && !f.Abs && f.Carets == 0 && g.rng.Intn(4) == 0 {
+				// length = invocation (last operand); offset = invocation without arguments or a name (D12)
+				m := &c11Method{path: p, table: g.table}
+				g.fills = append(g.fills, func() {
+					rn.tok.Args[2] = g.scopeExpr(m)
+					if o := g.scopeExpr(m); o.T != "call" || len(o.A) == 0 {
+						rn.tok.Args[1] = o
+					}
+				})
+			}
+			out = append(out, rn)
 			if g.rng.Intn(4) > 0 {
 				if fl := g.field(cur, late); fl != nil {
 					out = append(out, fl)
@@ -414,6 +447,8 @@ func (g *c11Gen) expr(m *c11Method, depth int, cs []*c11Method) c11Term {
 	switch {
 	case k < 3:
 		return g.constTerm()
+	case (k == 3 || k == 4) && g.scopeLvl:
+		return g.constTerm()
 	case k == 3:
 		return c11Term{T: "arg", N: []int{g.rng.Intn(7)}}
 	case k == 4:
@@ -438,6 +473,17 @@ func (g *c11Gen) expr(m *c11Method, depth int, cs []*c11Method) c11Term {
 		}
 		return g.call(m, depth, cs)
 	}
+}
+
+// expression outside a method body, evaluated in the scope of the declaration that m stands for
+func (g *c11Gen) scopeExpr(m *c11Method) c11Term {
+	g.scopeLvl = true
+	defer func() { g.scopeLvl = false }()
+	cs := g.callable(m)
+	if len(cs) > 0 && g.rng.Intn(4) > 0 {
+		return g.call(m, 1, cs)
+	}
+	return g.expr(m, 1, cs)
 }
 
 func (g *c11Gen) call(m *c11Method, depth int, cs []*c11Method) c11Term {
@@ -561,6 +607,9 @@ func c11RandomProgram(seed int64, open map[string]bool) []c11Tok {
 	}
 	for _, m := range g.methods {
 		m.node.body = g.stmts(m, 0, g.callable(m), g.rng.Intn(5))
+	}
+	for _, f := range g.fills {
+		f()
 	}
 	var toks []c11Tok
 	for _, top := range tables {
